@@ -127,6 +127,8 @@ Predict(cur, r) ==
          [] r.ev = "EmitS"      -> Plain(P!EmitSF(cur, [t |-> a.t, id |-> a.id, mode |-> a.mode, to |-> a.to, sess |-> 0, e |-> a.e]), TRUE)
          [] r.ev = "EmitC"      -> Plain(P!EmitCF(cur, a.c, [t |-> a.t, id |-> a.id, e |-> a.e]), TRUE)
          [] r.ev = "DeliverEvS" -> Plain(P!DeliverEvSF(cur, a.c, a.t, a.pos + 1), P!DeliverEvSEnabled(cur, a.c, a.t, a.pos + 1))
+         [] r.ev = "DropEvS"    -> Plain(P!DropEvSF(cur, a.c, a.t, a.pos + 1), P!DropEvSEnabled(cur, a.c, a.t, a.pos + 1))
+         [] r.ev = "DropEvC"    -> Plain(P!DropEvCF(cur, a.c, a.t, a.pos + 1), P!DropEvCEnabled(cur, a.c, a.t, a.pos + 1))
          [] r.ev = "DeliverEvC" -> Plain(P!DeliverEvCF(cur, a.c, a.t, a.pos + 1), P!DeliverEvCEnabled(cur, a.c, a.t, a.pos + 1))
          [] r.ev = "Prespawn"   -> Plain(P!PrespawnF(cur, a.c, a.p), P!PrespawnEnabled(cur, a.c, a.p))
          [] r.ev = "KillPre"    -> Plain(P!KillPreF(cur, a.c, a.p), P!KillPreEnabled(cur, a.c, a.p))
